@@ -40,6 +40,12 @@ func (s *Fragmenter) Fragment(orig []byte, ot highlight.TermLocations) []*highli
 	maxbegin := 0
 OUTER:
 	for currTermIndex, termLocation := range ot {
+		if termLocation.Start < 0 || termLocation.Start > termLocation.End ||
+			termLocation.End > len(orig) {
+			// this location does not lie inside the text, possibly because
+			// the analyzer changed its length, it cannot anchor a fragment
+			continue
+		}
 		// start with this
 		// it should be the highest scoring fragment with this term first
 		start := termLocation.Start
